@@ -79,7 +79,12 @@ func (o *offsetReadSeeker) ReadAt(p []byte, off int64) (n int, err error) {
 }
 
 func (o *offsetReadSeeker) ReadByte() (byte, error) {
-	_, err := o.Read(o.b[:])
+	n, err := o.Read(o.b[:])
+	if n == 1 {
+		// An io.ReaderAt may return io.EOF together with the last byte of its source; the
+		// byte was read, and an io.ByteReader reports an error only when it returns no byte.
+		err = nil
+	}
 	return o.b[0], err
 }
 
